@@ -48,6 +48,7 @@ def verus(name, props, clause, fn, tier="quick"):
 ROOT = "verif_root::"
 EN = "energy::verif_energy::n::"
 RN = "verif_root::n::"
+TR = "energy::transmittance::verif_transmittance::n::"
 CV = "convert::from_ctehexml::verif_convert::n::"
 RY = "energy::raytracing::ray::verif_ray::n::"
 BV = "energy::raytracing::bvh::verif_bvh::n::"
@@ -61,24 +62,31 @@ OBLIGATIONS = [
     kani("c11_orient_sectors", ["C11", "C10"], "C11.orient.sectors", "bemodel::Orientation::from(f32)"),
     kani("c11_normalize_range", ["C11"], "C11.normalize", "bemodel::utils::normalize"),
     # ---- C06 leaves -----------------------------------------------------------------------------------
-    kani("c06_fround2_contract", ["C06", "C07", "C08"], "C06.fround2", "bemodel::utils::fround2 (kani::requires/ensures, proof_for_contract)"),
-    kani("c06_fround3_contract", ["C06"], "C06.fround3", "bemodel::utils::fround3 (kani::requires/ensures, proof_for_contract)"),
-    kani("c06_fround2_monotone", ["C06"], "C06.fround2.monotone", "bemodel::utils::fround2"),
-    kani("c06_uext_value", ["C06"], "C06.uext.value", "Wall::u_value_exterior (fround2 replaced by its verified contract)", timeout=400),
+    kani("c06_fround2_contract", ["C06", "C07", "C08"], "C06.fround2", "bemodel::utils::fround2 (kani::requires/ensures, proof_for_contract)", timeout=600),
+    kani("c06_fround3_contract", ["C06"], "C06.fround3", "bemodel::utils::fround3 (kani::requires/ensures, proof_for_contract)", timeout=900),
+    kani("c06_fround2_monotone", ["C06"], "C06.fround2.monotone", "bemodel::utils::fround2", tier="thorough", timeout=1800),
+    kani("c06_uext_value_p0", ["C06"], "C06.uext.value", "Wall::u_value_exterior (fround2 replaced by its verified contract; R in binade piece 0 of 11)", timeout=900),
+    kani("c06_uext_value_p1", ["C06"], "C06.uext.value", "Wall::u_value_exterior (fround2 replaced by its verified contract; R in binade piece 1 of 11)", timeout=900),
+    kani("c06_uext_value_p2", ["C06"], "C06.uext.value", "Wall::u_value_exterior (fround2 replaced by its verified contract; R in binade piece 2 of 11)", timeout=900),
+    kani("c06_uext_value_p3", ["C06"], "C06.uext.value", "Wall::u_value_exterior (fround2 replaced by its verified contract; R in binade piece 3 of 11)", timeout=900),
+    kani("c06_uext_value_p4", ["C06"], "C06.uext.value", "Wall::u_value_exterior (fround2 replaced by its verified contract; R in binade piece 4 of 11)", timeout=900),
+    kani("c06_uext_value_p5", ["C06"], "C06.uext.value", "Wall::u_value_exterior (fround2 replaced by its verified contract; R in binade piece 5 of 11)", timeout=900),
+    kani("c06_uext_value_p6", ["C06"], "C06.uext.value", "Wall::u_value_exterior (fround2 replaced by its verified contract; R in binade piece 6 of 11)", timeout=900),
+    kani("c06_uext_value_p7", ["C06"], "C06.uext.value", "Wall::u_value_exterior (fround2 replaced by its verified contract; R in binade piece 7 of 11)", timeout=900),
+    kani("c06_uext_value_p8", ["C06"], "C06.uext.value", "Wall::u_value_exterior (fround2 replaced by its verified contract; R in binade piece 8 of 11)", timeout=900),
+    kani("c06_uext_value_p9", ["C06"], "C06.uext.value", "Wall::u_value_exterior (fround2 replaced by its verified contract; R in binade piece 9 of 11)", timeout=900),
+    kani("c06_uext_value_p10", ["C06"], "C06.uext.value", "Wall::u_value_exterior (fround2 replaced by its verified contract; R in binade piece 10 of 11)", timeout=900),
     kani("c06_uext_none", ["C06"], "C06.uext.none", "Wall::u_value_exterior"),
-    kani("c06_uint_value", ["C06"], "C06.uint.value", "Wall::u_value_interior_cond_uncond (fround2 replaced by its verified contract)", timeout=400),
     kani("c06_gnd_notburied", ["C06"], "C06.gnd.notburied", "Wall::u_value_gnd_wall / u_value_gnd_top"),
     kani("c06_gnd_panicfree", ["C06", "C14"], "C06.gnd.panicfree", "Wall::u_value_gnd_wall / u_value_gnd_slab"),
     # ---- C07 ------------------------------------------------------------------------------------------
-    kani("c07_wincons_u", ["C07"], "C07.u", "WinCons::u_value", timeout=300, bounded="ConsDb with 1 glass + 1 frame; all scalars and both links symbolic"),
-    kani("c07_wincons_g", ["C07"], "C07.g", "WinCons::g_glwi / g_glshwi", timeout=300, bounded="ConsDb with 1 glass + 1 frame; all scalars and the glass link symbolic"),
+    kani("c07_wincons_u", ["C07"], "C07.u.none", "WinCons::u_value", timeout=600, bounded="ConsDb with 1 glass + 1 frame; all scalars and both links symbolic"),
+    kani("c07_wincons_g", ["C07"], "C07.g", "WinCons::g_glwi / g_glshwi", timeout=600, bounded="ConsDb with 1 glass + 1 frame; all scalars and the glass link symbolic"),
     # ---- C09 ------------------------------------------------------------------------------------------
     kani("c09_n50_no_walls", ["C09"], "C09.corner", "N50Data::from(&EnergyProps)", bounded="element maps empty; every global scalar symbolic"),
     # ---- C13 ------------------------------------------------------------------------------------------
     kani("c13_aabb_join", ["C13"], "C13.aabb.join", "AABB::join / AABB::default"),
     kani("c13_aabb_mono", ["C13"], "C13.aabb.mono", "AABB::intersects / AABB::join", tier="thorough", timeout=900),
-    kani("c13_build_empty", ["C13", "C14", "C12"], "C13.build.empty", "BVH::build / BVH::intersects", bounded="0 obstacles, leaf size in {1,2,30}"),
-    kani("c13_build_single", ["C13", "C12"], "C13.build.equiv", "BVH::build / BVH::intersects", bounded="1 obstacle with symbolic box and hit flag, leaf size in {1,2,30}", timeout=300),
     verus("bvh_builder", ["C13", "C14"], "C13.builder", "BVH::generate_node_list"),
     # ---- C17 / C03 (convert) -------------------------------------------------------------------------
     kani("c17_day_of_year", ["C17"], "C17.doy", "convert::from_ctehexml::day_of_year"),
@@ -119,24 +127,85 @@ OBLIGATIONS = [
     native("n_c14_seed_closed", ["C14"], "C14.seed", "Model::energy_indicators / EnergyIndicators::as_json", RN + "n_c14_seed_closed"),
     native("n_c14_single_edits", ["C14"], "C14.edit1", "Model::energy_indicators (EnergyProps::from, compute_fshobst, KData, N50Data, QSolJulData, check)", RN + "n_c14_single_edits", crash=True, timeout=300),
     native("n_c14_double_edits", ["C14"], "C14.edit2", "Model::energy_indicators", RN + "n_c14_double_edits", crash=True, timeout=600),
+    native("n_c06_resistance", ["C06"], "C06.resistance", "WallCons::resistance", TR + "n_c06_resistance"),
+    native("n_c06_uint_value", ["C06"], "C06.uint", "Wall::u_value_interior_cond_uncond", TR + "n_c06_uint_value"),
+    native("n_c06_uext_mono", ["C06"], "C06.uext.mono", "Wall::u_value_exterior", TR + "n_c06_uext_mono"),
+    native("n_c06_dispatch", ["C06"], "C06.dispatch", "Wall::u_value(&Model) / Space::ua_of_external_and_ground_surfaces / Model::global_ventilation_rate", TR + "n_c06_dispatch"),
+    native("n_c07_wincons_value", ["C07"], "C07.u.value", "WinCons::u_value / g_glwi / g_glshwi", TR + "n_c07_wincons_value"),
+    native("n_c07_defaults", ["C07"], "C07.defaults", "EnergyProps::from(&Model) (WinConsProps) / KData::from / QSolJulData::from", TR + "n_c07_defaults"),
     native("n_c09_n50", ["C09"], "C09.n50", "N50Data::from(&EnergyProps)", EN + "n_c09_n50"),
     native("n_c10_qsoljul", ["C10"], "C10.qsoljul", "QSolJulData::from(&EnergyProps, &HashMap<Orientation,f32>)", EN + "n_c10_qsoljul"),
     native("n_c10_july_table", ["C10", "C20"], "C10.table", "climatedata::total_radiation_in_july_by_orientation", EN + "n_c10_july_table"),
 ]
 
 PROPERTIES = {
-    "C11": {"level": "proof", "undecided_clauses": []},
-    "C06": {"level": "proof"},
+    "C03": {"level": "proof", "undecided_clauses": ["global positions within 1 cm, outward normals, shade corner points, rotation of the whole building: all run through Rotation3/Rotation2 (sin/cos) - no contract within reach decides them"]},
+    "C06": {"level": "proof", "undecided_clauses": ["numeric value of the EN ISO 13370 slab and basement-wall formulas (ln): only panic-freedom and the not-buried identities are proved; values are checked by the bounded obligation C06.ground"]},
     "C07": {"level": "proof"},
-    "C09": {"level": "proof"},
+    "C08": {"level": "exploration"},
+    "C09": {"level": "exploration"},
+    "C10": {"level": "exploration"},
+    "C11": {"level": "proof"},
+    "C12": {"level": "exploration", "undecided_clauses": ["the hour-by-hour value for partially obstructed windows (only the unobstructed and the hidden-at-every-hour extremes have an independent oracle)"]},
     "C13": {"level": "proof"},
-    "C17": {"level": "proof"},
-    "C03": {"level": "proof"},
-    "C20": {"level": "proof"},
-    "C12": {"level": "proof"},
-    "C14": {"level": "proof"},
-    "C08": {"level": "proof"},
-    "C10": {"level": "proof"},
+    "C14": {"level": "exploration"},
     "C15": {"level": "exploration"},
     "C16": {"level": "exploration"},
+    "C17": {"level": "proof"},
+    "C20": {"level": "proof", "undecided_clauses": ["sun altitude/azimuth vs spherical astronomy, incidence angle, horizontal / downward-facing identities, table vs weather file: statements about sin/cos/asin/acos/powf on f32 - neither verifier has a theory for them"]},
+}
+
+NOT_APPLICABLE = [
+    {"property_id": "C01", "reason": "the observable is the byte stream on stdout and the exit status of two binaries; neither Kani nor Verus models process I/O, so 'writes exactly one JSON document and nothing else' is not expressible as a contract on any function"},
+    {"property_id": "C02", "reason": "closure of converted models rests on String-keyed BTreeMap lookups over the parser's Data, md5-of-Debug-text ids and str processing; Kani cannot build a symbolic Data at feasible cost, Verus cannot read the iterator/str code, and id uniqueness is a statement about md5"},
+    {"property_id": "C04", "reason": "JSON round-trip is serde-derive code plus serde_json text formatting/parsing (ryu floats, untagged/flattened enums); which field is paired with which default helper lives in derive attributes no contract can see"},
+    {"property_id": "C05", "reason": "quantifies over processes, 16 threads and call histories; Kani has no thread support, Verus would need the code rewritten onto its permission types; 'the shared tables are never written' is a whole-program frame condition over Lazy<Mutex<..>>"},
+    {"property_id": "C18", "reason": "parser correctness over all documents is str slicing / split / parse::<f32>; Verus has no str byte reasoning and Kani on symbolic text is infeasible beyond a few bytes"},
+    {"property_id": "C19", "reason": "same parser code as C18 with panic-freedom over every single-edit corruption of 77 files: a quantifier over files, not over one function's inputs; no contract within reach expresses it"},
+]
+
+_TB = "Trusted: rustc, Kani 0.68 + CBMC 6.11 (bit-precise IEEE-754), Verus + Z3, the line-adding injector / verbatim extractor, std collections, nalgebra, uuid. "
+MANIFEST_TEXT = {
+    "C03": {"technique": "Kani proof harnesses on the real angle-convention functions (full float domain) and Polygon::mirror_y (<=5 vertices)",
+            "text": "Narrow claim: only the angle-convention leaves of the conversion are decided - orientation_bdl_to_52016 lies in [-180,180] and is congruent to 180-a (mod 360) for every float in [-1080,1080], turning the building by d shifts every converted azimuth by -d, mirror_y keeps vertex 0 / reverses the rest / negates y. Positions, normals and rotations (trigonometry) are listed as undecided in the evidence.",
+            "note": _TB + "Nothing is claimed through sin/cos (nondeterministic in Kani)."},
+    "C06": {"technique": "Kani function contracts (requires/ensures on fround2/fround3, proof_for_contract, stub_verified in callers) + complete proof of the exterior U formula split by binade; bounded enumeration for Wall::u_value dispatch",
+            "text": "Deductive for the leaves: rounding contracts for every f32, tilt classes, 1/(Rsi+R+Rse) to two decimals with Rsi by heat-flow direction for EVERY resistance in [0,100] and tilt in [0,360] (11 binade pieces whose union is the whole interval), missing resistance => no value, un-buried basement wall identity, panic-freedom of the ground formulas. The dispatch on boundary kind / adjacent space / ventilation, the partition formula and layer monotonicity run through Vec lookups and two divisions over four floats: same contracts, enumerated exhaustively at a stated small scope (bounded, never counted as proved).",
+            "note": _TB + "ln-based EN ISO 13370 values are not decided deductively (Kani's logf is nondeterministic)."},
+    "C07": {"technique": "Kani proof harnesses on WinCons::u_value / g_glwi / g_glshwi with all links and scalars symbolic (1 glass + 1 frame); bounded grid for the numeric U formula and the downstream defaults",
+            "text": "Deductive: a window construction has a U-value exactly when glazing and frame both resolve (present / nil / dangling ids, all scalars symbolic); g_gl;wi = 0.90 g_gl;n to two decimals, user shading factor wins, fallback to g_gl;wi otherwise. The four-multiplication U formula and the 0.77 / 5.7 defaults inside the aggregators are checked by bounded enumeration.",
+            "note": _TB + "ConsDb shape fixed to one glass and one frame in the Kani harnesses (unwind 18 for the 16-byte id comparison)."},
+    "C08": {"technique": "contract on KData::from(&EnergyProps) and EnergyProps::from(&Model) written from the property statement, discharged by exhaustive small-scope enumeration on the natively compiled real code (bounded stand-in; BTreeMap iteration is beyond both verifiers)",
+            "text": "Bounded: the K contract (membership, net areas, multipliers, override-before-computed-before-5.7, bridges of non-negative length, breakdown adds up, min<=mean<=max, rename/reorder invariance) is evaluated on every combination of the stated scope (2 walls x 384 variants each, 2 windows, 2 bridges of all 9 kinds). Only the rounding helper is proved deductively.",
+            "note": "Exhaustive only within the stated scope; one non-empty BTreeMap already exceeds 600 s in CBMC (measured), Verus rejects iterator chains. " + _TB},
+    "C09": {"technique": "Kani proof of the corner-case clauses of N50Data::from for every GlobalProps with empty element maps; bounded enumeration of the formula with elements",
+            "text": "The zero-volume / zero-wall-area / with-and-without-test branches are proved for all float inputs on empty maps (they do not depend on map content); the formula 0.629 (Co Ao + sum Ch Ah)/V with exclusions, multipliers, default Ch = 100 and the back-calculated wall permeability is checked on every combination of 2 walls x 2 windows x globals (663k cases).",
+            "note": "Bounded for everything that iterates a BTreeMap. " + _TB},
+    "C10": {"technique": "contract on QSolJulData::from written from the statement, exhaustive small-scope enumeration (bounded); Kani proofs of the orientation classifier it depends on; exhaustive check of the 32x9 July table",
+            "text": "Bounded: gains formula, override -> computed -> 1 precedence, 0.77 / 0.20 defaults, per-orientation breakdown adds up, every mean is the area-weighted mean, all figures finite when no window participates (A_ref 0 and 100). The orientation sectors and their 360-periodicity are proved for every float; the embedded July table is enumerated completely.",
+            "note": "HashMap argument and BTreeMap iteration are out of deductive reach. " + _TB},
+    "C11": {"technique": "Kani proofs over the full f32 domain for both classifiers (congruence mod 360, sector tables, parser/model agreement, normalize); bounded enumeration for areas, volumes, compactness, membership, ventilation, scaling",
+            "text": "Complete proofs: Tilt and Orientation depend only on the angle modulo 360 for every pair of floats in [-720,1080] whose difference is exactly a multiple of 360, their sector tables, and identical classification by parser and model for every tilt in [0,360]. Reference area, volumes, compactness, envelope membership rule, ventilation-rate agreement and s/s2/s3 scaling are bounded obligations on small models.",
+            "note": _TB},
+    "C12": {"technique": "contract on Model::sunlit_fraction / compute_fshobst (range, no-geometry cases, monotone in the obstacle set, formula at the two extremes) by exhaustive enumeration of a 5-obstacle scene (bounded); BVH exactness delegated to C13's obligations",
+            "text": "Bounded: every sunlit fraction and every factor lies in [0,1] (never NaN), 1 for missing geometry, 0 behind the window, non-increasing when any of 5 obstacles is added (all 32 subsets), >= 0.97 and equal to the independent hour-by-hour mean when unobstructed, equal to the diffuse share when hidden at every hour.",
+            "note": "radiation_for_surface (trigonometry) is used as given inside the oracle; partially obstructed values are not decided. " + _TB},
+    "C13": {"technique": "Verus contracts (requires/ensures/invariant/decreases + ghost lemmas) on BVH::generate_node_list extracted verbatim every run; Kani proofs of the AABB algebra; bounded enumeration for tree reconstruction, ray/polygon tests and reveal surfaces",
+            "text": "Unbounded proof (Verus, any number of obstacles and any leaf size >= 1): the node-list builder terminates, has no arithmetic overflow/underflow and no failing unwrap, loses no element (leaf sizes add up to n), puts the parentless root first, gives every leaf 1..max elements and every entry an earlier Node as parent - under the partition contract P (both halves non-empty), which is discharged boundedly on the real partition function. Kani proves join/containment/identity of boxes and that a ray hitting a box hits every enclosing box. Accelerated == exhaustive answers, point-in-polygon, ray/posed-polygon hits, box tightness and reveal surfaces are bounded obligations.",
+            "note": _TB + "partition_elements_by_centroid is external_body in the Verus unit (assumed contract P, twin obligation C13.partition bounded); build_from_node_list / PreorderIter use BTreeMap and Box recursion and are covered only by the bounded equivalence obligation."},
+    "C14": {"technique": "panic-freedom / termination contract on Model::energy_indicators over every single structural edit (and a stated family of pairs) of a seed model's JSON tree, enumerated exhaustively (bounded); Kani/Verus panic-freedom of the leaves",
+            "text": "Bounded: for every model obtained from a closed seed by one edit (1187) or a stated set of edit pairs (69k) that still loads, the computation returns without panic within 20 s and a later computation on the seed is unaffected; the closed seed gives finite figures that serialise and load back. Deductive part: panic-freedom and termination of the BVH builder (Verus) and of the ground formulas (Kani).",
+            "note": "Scope = edits of one seed model; exhaustive within it. " + _TB},
+    "C15": {"technique": "contract on check(&Model) (exact multiset of warning ids from an independent oracle, frame: model unchanged) by exhaustive small-scope enumeration (bounded; HashSet + format! exceed CBMC)",
+            "text": "Bounded: for all 46656 combinations of valid / nil / absent links on 2 walls, 2 windows and bridge lengths in {-1,-0.0,0,1}, the multiset of warning ids equals the broken links, a closed model is silent, the model is unchanged and the indicators' warnings are the checker's.",
+            "note": _TB},
+    "C16": {"technique": "contract on purge_unused(&mut Model) with an independent reachability oracle, frame and idempotence clauses, by exhaustive small-scope enumeration (bounded)",
+            "text": "Bounded: on 62208 models with every sharing pattern of the reference chain space -> loads/thermostat -> yearly -> weekly -> daily (and constructions -> materials / glazing / frame), exactly the unreachable items are removed in order, kept items are unchanged, purging twice equals once, no link breaks and the indicators are unchanged.",
+            "note": _TB},
+    "C17": {"technique": "Kani proof of day_of_year against the calendar for every date; bounded enumeration of week/year expansion, HULC schedule conversion and occupancy figures",
+            "text": "Complete proof that day_of_year equals the calendar ordinal for all 365 dates. Run-length expansion, weekday alignment (day k takes slot k mod 7), conversion of every end-date list from a grid plus all 364 single end dates, 7-day lists into runs, 1 -> 24 values, occupied hours and area-weighted mean loads are bounded obligations.",
+            "note": _TB},
+    "C20": {"technique": "Kani proofs of nday_from_md (all dates), hour-angle and relative-angle wrap ranges, non-negative beam irradiance; exhaustive check of the July table",
+            "text": "Narrow claim: the integer / branch clauses are proved (day-of-year for every date of the non-leap year, angles wrapped into [-180,180], I_dir >= 0 for any value of cos); the embedded July-by-orientation table is enumerated for all 32 zones x 9 classes. The spherical-astronomy and radiation identities (trigonometry on f32) are listed as undecided.",
+            "note": _TB + "Transcendental functions are over-approximated by Kani; no claim goes through them."},
 }
